@@ -32,7 +32,13 @@ def alphabet(d):
     ld = w("loads.s", ["movq (%rax), %rbx", "movq 8(%rax), %rcx", "addq %rbx, %rcx"])
     pp = w("prepost.s", ["ldr x1, [x2], #8", "ldr x3, [x4, #16]!", "add x1, x1, x3",
                          "str x1, [x5], #8", "subs x6, x6, #1", "b.ne .L1"])
+    # the same lines on a model that knows them and on one that does not (ivb has no FMA), and on
+    # a model that composes the memory form vs. one with an entry of its own
+    fma = w("fma_mem.s", ["vfmadd231pd 32(%rdx,%rax), %ymm1, %ymm2", "vmovapd (%rdx), %ymm3",
+                          "vaddpd %ymm2, %ymm3, %ymm1", "addq $32, %rax"])
     return {
+        "fma-ivb": dict(path=fma, isa="x86", arch="ivb"),
+        "fma-hsw": dict(path=fma, isa="x86", arch="hsw"),
         "upd-zen1": dict(path=ex, isa="x86", arch="zen1"),
         "upd-zen1-fixed": dict(path=ex, isa="x86", arch="zen1", fixed=True),
         "rmw-zen1": dict(path=rmw, isa="x86", arch="zen1", ignore_unknown=True),
@@ -201,7 +207,7 @@ def run(ctx):
     res = core.Result()
     d = ctx.sub("c18files")
     _A.update(alphabet(d))
-    names = ["zen1", "zen3", "tx2", "a64fx", "spr", "isa/x86", "isa/aarch64"]
+    names = ["zen1", "zen3", "ivb", "hsw", "tx2", "a64fx", "spr", "isa/x86", "isa/aarch64"]
     drive.stage_and_parse(ctx, names)   # in child processes: the parent stays pristine
     assert not drive.MachineModel._runtime_cache, "parent process state is not pristine"
     ref = {}
@@ -289,7 +295,7 @@ def replay(ctx, payload):
     r = payload["replay"]
     d = ctx.sub("c18files")
     _A.update(alphabet(d))
-    drive.stage_and_parse(ctx, ["zen1", "zen3", "tx2", "a64fx", "spr", "isa/x86", "isa/aarch64"])
+    drive.stage_and_parse(ctx, ["zen1", "zen3", "ivb", "hsw", "tx2", "a64fx", "spr", "isa/x86", "isa/aarch64"])
     h = tuple(r["history"])
     outs = run_histories(r["level"], [h] + [(n,) for n in set(h)])
     status, out = outs[h]
